@@ -3,6 +3,17 @@
 import json, sys
 pid, wid = sys.argv[1], sys.argv[2]
 n = int(sys.argv[3]) if len(sys.argv) > 3 else 3
+wave = int(sys.argv[4]) if len(sys.argv) > 4 else 1
+import glob, os
+done = []
+for m in sorted(glob.glob('/verif/seeded/*/meta.json')):
+    d = json.load(open(m))
+    if pid in (d.get('property') or '').split(','):
+        done.append('- ' + (d.get('breaks') or '')[:170].replace('\n', ' '))
+avoid = ""
+if wave > 1 and done:
+    avoid = ("\nEARLIER MUTANTS (already made by other testers against this property — do NOT repeat these or near variants; pick other functions, other mechanisms, other clauses of the property):\n" + "\n".join(done) +
+             "\nFor this round prefer: two cooperating sites that each look fine alone; changes that only matter under a non-default configuration (custom preset / unusual fork schedule); changes that only matter after a specific multi-step history; resource/boundary cases (empty, exactly-at-limit, wrap-around); and clauses of the property statement that the earlier mutants did not touch.\n")
 p = [json.loads(l) for l in open('/verif/properties.jsonl') if json.loads(l)['id'] == pid][0]
 mech = "; ".join(f"{m.get('name')} ({m.get('where')})" for m in p['anchors'].get('mechanism', []))
 print(f"""You are a careful Go engineer acting as an adversarial tester. You have your own scratch git worktree of the repository protolambda/zrnt (Go implementation of the Ethereum consensus / beacon chain spec) at /tmp/adv/{wid}. Work ONLY inside /tmp/adv/{wid} (and /tmp/adv/{wid}-out for your deliverables). Do not look at or touch /repo or /verif, and do not read anything outside your worktree and the Go module cache. Offline Go: run `export GOFLAGS=-mod=mod GOPROXY=off GOSUMDB=off GOTOOLCHAIN=local` in every shell call.
@@ -13,6 +24,7 @@ Statement: {p['statement']}
 Quantified over: {p['quantifier']['text']}
 Code anchors: files {', '.join(p['anchors']['files'])}. Mechanisms: {mech}
 
+{avoid}
 YOUR TASK: produce {n} different, independent changes ("mutants") to the repository's non-test Go source, each of which BREAKS this property while (a) the repository still compiles (`go build ./...`), (b) the repository's existing test suite still passes (`go test -vet=off -count=1 ./...` — takes ~25 s), and (c) the breakage needs something specific to manifest — a particular interleaving, a fault at a particular point, a multi-step sequence of operations, an unusual or boundary input, a particular configuration, or two cooperating sites that each look fine alone — NOT something ordinary use would expose at once (do not make a function wrong for all inputs). Make them realistic: the kind of slip or "optimisation" a maintainer could plausibly commit (an off-by-one at a boundary, a wrong comparison direction, a stale cache, a skipped update on one path, a swapped argument, a check moved, a missing lock, a wrong constant for one fork). The mutants should touch different functions/mechanisms of the property.
 
 For EACH mutant i in 1..{n} deliver in /tmp/adv/{wid}-out/m<i>/:
